@@ -1,5 +1,7 @@
 """Single source for MANIFEST.json (tools/mkmanifest.py)."""
 ENGINES = [
+    {"name": "lattice+sequences-sb2", "path": "vf/props/c04.py", "serves_properties": ["C04"],
+     "kind_free_text": "all command sequences up to a length bound over a boundary-value alphabet + all header/option configurations with <= k departures, built with the real BootImageV20/V21 and decoded by an independent ROM model (vf/ref/rom_sb2.py, certblock_v1.py); region-wise bit-flip sweep"},
     {"name": "sweep-crypto", "path": "vf/props/c09.py", "serves_properties": ["C09"],
      "kind_free_text": "exhaustive product sweeps (every message length, every IV-default combination, all counter increment sequences) on the real wrappers against pure-Python reference implementations in vf/ref (aes.py, crc.py, kdf.py) self-tested on published vectors"},
     {"name": "envdev+bfs-protocol", "path": "vf/props/c10.py", "serves_properties": ["C10"],
@@ -16,6 +18,12 @@ ENGINES = [
 FIX_COMMITS = ["e173e89", "69c9427", "3f819f3", "2ac9b91", "83ab516", "2982182", "b4341d3", "f68c828", "1e56e39", "8e8a574", "2622fd6", "9334850", "fd62f71", "1ea4c23", "c7c34d4", "dd26e59", "6b2a920", "698b0bb", "7a9bdd4", "d847120"]
 NOT_APPLICABLE = {}
 CHECKS = {
+    "C04": {
+        "engine": "lattice+sequences-sb2", "level": "exploration", "design_ref": "DESIGN.md §5",
+        "technique": "bounded exhaustive enumeration: all command sequences of length <= 2 (3-4 thorough) over a 58-symbol boundary alphabet, all section pairs, all 16-dimension header configurations with <= 1-2 departures, HMAC-table x block-count product; every built file decoded by an independent ROM model; single-bit tamper sweep per region",
+        "text": "Every enumerated SB2.0/2.1 image is built by the real classes with explicit DEK/MAC/nonce and processed by a bytes-only ROM model holding the KEK (RFC 3394 unwrap, header and section HMACs, cert block v1 chain and signature, AES-CTR with its own block counter, command checksums and CRC): the decoded command list and header fields must equal what was given, SPSDK's own parser must agree, and wrong KEK / single-bit corruption of each region must be refused by both. The model is calibrated on the repository's 34 golden SB2 files at every run.",
+        "note": "Trusted: vf/ref/rom_sb2.py and certblock_v1.py (calibrated on NXP's goldens); a non-SPSDK exception type from parse() of a corrupted file is counted, not judged (the property says 'raises an error'); payloads > 258 blocks and BD semantics (C19) are outside.",
+    },
     "C09": {
         "engine": "sweep-crypto", "level": "exploration", "design_ref": "DESIGN.md §10",
         "technique": "bounded exhaustive enumeration: full product of key size x key/IV pattern x IV-default combination x every message length 0..80 (272 thorough) plus boundary lengths, all Counter increment sequences to depth 2/3, executed on the real wrappers and compared with independent pure-Python references",
